@@ -58,6 +58,7 @@ Definition E_OK : N := 0.       (* nil *)
 Definition E_EOF : N := 1.      (* io.EOF *)
 Definition E_INVAL : N := 2.    (* core.ErrInvalidArgument *)
 Definition E_OTHER : N := 3.    (* any other error (Seek's fmt.Errorf) *)
+Definition E_FAULT : N := 4.    (* core.ErrRPC: the injected tractserver read fault, every replica failed *)
 
 Record variant := { fix16 : bool; fix17 : bool; fix17b : bool }.
 Definition as_found : variant := {| fix16 := false; fix17 := false; fix17b := false |}.
@@ -132,13 +133,19 @@ Definition get_tracts (st : cstate) (start end_ : N) : (N * N) * cstate :=
     ((s, e - s), mkst (tracts st) (ntr st) (cache_on st) c' (pos st) (rbuf st) (rerr st) (rpcs st + 1)).
 
 (* ---------- readAt ---------- *)
-(* one goroutine per returned tract j, j+1, ...: getNextRange, then readOneTract *)
-Fixpoint read_tracts (tl : N) (cnt : nat) (j : N) (T : N -> runs) (k offset pos : N) : list ((N * N * N) * runs) :=
+(* one goroutine per returned tract j, j+1, ...: getNextRange, then readOneTract.
+   [flt j] = every replica of tract j fails this attempt (read-fault oracle): readOneTractReplicated then leaves
+   tractResult{0, 0, err} and does not touch thisB (the model puts zeros there; those bytes are never delivered). *)
+Definition no_fault : N -> bool := fun _ => false.
+
+Fixpoint read_tracts (tl : N) (cnt : nat) (j : N) (T : N -> runs) (flt : N -> bool) (k offset pos : N)
+  : list ((N * N * N) * runs) :=
   match cnt with
   | O => []
   | S c =>
       let '(toff, tlen) := next_range tl k offset pos in
-      read_one (T j) toff tlen :: read_tracts tl c (j + 1) T k offset (pos + tlen)
+      (if flt j then ((0, 0, E_FAULT), rzeros tlen) else read_one (T j) toff tlen)
+        :: read_tracts tl c (j + 1) T flt k offset (pos + tlen)
   end.
 
 (* the loop "Figure out how much succeeded" *)
@@ -155,7 +162,8 @@ Fixpoint fold_results (padAll : bool) (rs : list (N * N * N)) (read err : N) : N
       else (read, e)
   end.
 
-Definition read_at (v : variant) (tl : N) (st : cstate) (off : Z) (k : N) : (N * N * runs) * cstate :=
+(* one execution of readAt's body *)
+Definition read_at_try (v : variant) (tl : N) (flt : N -> bool) (st : cstate) (off : Z) (k : N) : (N * N * runs) * cstate :=
   if (off <? 0)%Z then ((0, E_INVAL, []), st)
   else if k =? 0 then ((0, E_OK, []), st)
   else
@@ -167,10 +175,32 @@ Definition read_at (v : variant) (tl : N) (st : cstate) (off : Z) (k : N) : (N *
     else
       let padAll := cnt =? end_ + 1 - start in
       let cnt' := if padAll then cnt - 1 else cnt in
-      let rs := read_tracts tl (N.to_nat cnt') first (tracts st1) k o 0 in
+      let rs := read_tracts tl (N.to_nat cnt') first (tracts st1) flt k o 0 in
       let '(n, e) := fold_results padAll (map fst rs) 0 E_OK in
       let e' := if fix16 v && (e =? E_OK) && (n <? k) then E_EOF else e in
       ((n, e', rtake n (concat (map snd rs))), st1).
+
+(* readAt without faults *)
+Definition read_at (v : variant) (tl : N) (st : cstate) (off : Z) (k : N) : (N * N * runs) * cstate :=
+  read_at_try v tl no_fault st off k.
+
+(* readAt under the read-fault oracle. fl = list of (tract index, kind): kind 1 = every replica of the tract fails
+   for the whole call; kind 3 = every replica fails during the first execution of readAt only (kind 2 = all replicas
+   but one fail, is invisible: the read succeeds on the healthy one). A real error with tractsWereCached invalidates
+   the blob's cache entry and calls readAt again (once: the second call's tracts come from the curator).
+   tractsWereCached is recognised by "no GetTracts RPC was issued". *)
+Definition fault_at (fl : list (N * N)) (attempt : N) : N -> bool :=
+  fun j => existsb (fun x => (fst x =? j) && ((snd x =? 1) || ((snd x =? 3) && (attempt =? 0)))) fl.
+
+Definition drop_cache (st : cstate) : cstate :=
+  mkst (tracts st) (ntr st) (cache_on st) [] (pos st) (rbuf st) (rerr st) (rpcs st).
+
+Definition read_at_f (v : variant) (tl : N) (fl : list (N * N)) (st : cstate) (off : Z) (k : N)
+  : (N * N * runs) * cstate :=
+  let '((n, e, d), st1) := read_at_try v tl (fault_at fl 0) st off k in
+  if (e =? E_FAULT) && (rpcs st1 =? rpcs st)
+  then read_at_try v tl (fault_at fl 1) (drop_cache st1) off k
+  else ((n, e, d), st1).
 
 (* ---------- writeAt ---------- *)
 (* one goroutine per tract: Write (existing tract) or Create (new tract = empty data, then Write) *)
@@ -224,6 +254,10 @@ Definition byte_length (tl : N) (st : cstate) : N * cstate :=
 (* ---------- blob.go: Blob ---------- *)
 Definition blob_read (v : variant) (tl : N) (st : cstate) (k : N) : (N * N * runs) * cstate :=
   let '((n, e, d), st1) := read_at v tl st (pos st) k in
+  ((n, e, d), if (e =? E_OK) || (e =? E_EOF) then set_pos st1 (pos st1 + Z.of_N n) else st1).
+
+Definition blob_read_f (v : variant) (tl : N) (fl : list (N * N)) (st : cstate) (k : N) : (N * N * runs) * cstate :=
+  let '((n, e, d), st1) := read_at_f v tl fl st (pos st) k in
   ((n, e, d), if (e =? E_OK) || (e =? E_EOF) then set_pos st1 (pos st1 + Z.of_N n) else st1).
 
 Definition blob_write (tl : N) (st : cstate) (b : runs) : (N * N) * cstate :=
@@ -285,6 +319,8 @@ Inductive op :=
 | ORaSeek (off whence : Z)
 | ORaLen
 | OCache (on : bool)
+| OReadAtF (off : Z) (k : N) (fl : list (N * N))   (* ReadAt while the listed tractserver read faults are armed *)
+| OReadF (k : N) (fl : list (N * N))               (* Read under faults *)
 | OReopen            (* Client.Open: a fresh Blob (offset 0) and a fresh ReadaheadBlob on it *)
 | ORaNew.            (* NewReadaheadBlob on the current Blob *)
 
@@ -311,6 +347,8 @@ Definition step (v : variant) (tl : N) (st : cstate) (o : op) : res * cstate :=
   | ORaRead k => let '((n, e, d), st1) := ra_read v tl st k in mk st1 (Z.of_N n) e d
   | ORaSeek off w => let '((r, e), st1) := ra_seek v tl st off w in mk st1 r e []
   | ORaLen => let '(l, st1) := byte_length tl st in mk st1 (Z.of_N l) E_OK []
+  | OReadAtF off k fl => let '((n, e, d), st1) := read_at_f v tl fl st off k in mk st1 (Z.of_N n) e d
+  | OReadF k fl => let '((n, e, d), st1) := blob_read_f v tl fl st k in mk st1 (Z.of_N n) e d
   | OCache on => mk (set_cache_on st on) 0%Z E_OK []
   | OReopen =>
       (* openOnce: an uncached curators.GetTracts(0,0) (one RPC); tractCache.put of no tracts *)
@@ -391,7 +429,7 @@ Fixpoint srun (tl : N) (f : sfile) (ops : list op) : list sres :=
   end.
 
 Definition direct_op (o : op) : bool :=
-  match o with ORaRead _ | ORaSeek _ _ | ORaLen => false | _ => true end.
+  match o with ORaRead _ | ORaSeek _ _ | ORaLen | OReadAtF _ _ _ | OReadF _ _ => false | _ => true end.
 
 (* ---------- wire format ---------- *)
 (* ops:  0 fix16 fix17 cacheOn [fix17b]   (first line of a case: which code variant, initial cache flag)
@@ -406,7 +444,9 @@ Definition direct_op (o : op) : bool :=
          9                                 RA.ByteLength  < len err pos rpcs
          10 on                             EnableCache    < 0
          11                                Reopen         < 0 rpcs
-         12                                NewReadahead   < 0                                  *)
+         12                                NewReadahead   < 0
+         13 off k nf (tract kind)...       ReadAt with read faults armed   < as 2
+         14 k nf (tract kind)...           Read with read faults armed     < as 4              *)
 Fixpoint dec_pairs (n : nat) (l : list Z) : option runs :=
   match n with
   | O => match l with [] => Some [] | _ => None end
@@ -436,6 +476,10 @@ Definition dec_op (l : list Z) : option op :=
   | [10%Z; on] => Some (OCache (negb (on =? 0)%Z))
   | [11%Z] => Some OReopen
   | [12%Z] => Some ORaNew
+  | 13%Z :: off :: k :: r => if (k <? 0)%Z then None else
+      match dec_runs r with Some fl => Some (OReadAtF off (Z.to_N k) fl) | None => None end
+  | 14%Z :: k :: r => if (k <? 0)%Z then None else
+      match dec_runs r with Some fl => Some (OReadF (Z.to_N k) fl) | None => None end
   | _ => None
   end.
 
@@ -446,7 +490,7 @@ Definition enc_runs (r : runs) : list Z :=
 Definition enc_res (o : op) (x : res) : list Z :=
   let hdr := [r_n x; Z.of_N (r_err x); r_pos x; Z.of_N (r_rpc x)] in
   match o with
-  | OReadAt _ _ | ORead _ => hdr ++ enc_runs (r_data x)
+  | OReadAt _ _ | ORead _ | OReadAtF _ _ _ | OReadF _ _ => hdr ++ enc_runs (r_data x)
   | ORaRead _ => [r_n x; Z.of_N (r_err x); r_pos x; Z.of_N (r_buf x); Z.of_N (r_rpc x)] ++ enc_runs (r_data x)
   | ORaSeek _ _ => [r_n x; Z.of_N (r_err x); r_pos x; Z.of_N (r_buf x); Z.of_N (r_rpc x)]
   | OCache _ | ORaNew => [0%Z]
